@@ -319,6 +319,10 @@ pub struct ExecCase {
     pub chop:        Vec<bool>,
     /// yields of the releaser task before it opens the gate
     pub release_after: u8,
+    /// (virtual) milliseconds the asynchronous error callback of `spawn_executor` takes (paused-clock runtime only; may exceed the futures timeout: the
+    /// timeout bounds the item's future, not the user's callback)
+    #[serde(default)]
+    pub err_cb_delay: u8,
 }
 
 pub struct ExecOutcome {
@@ -346,7 +350,8 @@ async fn exec_main(case: ExecCase) -> ExecOutcome {
         match case.exec {
             ExecKind::FutFall => {
                 let stream: BoxStream<'static, FutItem> = source.map(move |v| Box::pin(item_future(Arc::clone(&w), 0, v)) as FutItem).boxed();
-                executor.spawn_executor(limit, move |err: BoxErr| { let w = Arc::clone(&w_err); async move { w.on_err(&err.to_string()); } }, on_close, stream);
+                let delay = if case.rt.paused() { case.err_cb_delay as u64 } else { 0 };
+                executor.spawn_executor(limit, move |err: BoxErr| { let w = Arc::clone(&w_err); async move { if delay > 0 { tokio::time::sleep(Duration::from_millis(delay)).await; } w.on_err(&err.to_string()); } }, on_close, stream);
             },
             ExecKind::Fut => {
                 let stream: BoxStream<'static, PlainFutItem> = source.map(move |v| { let w = Arc::clone(&w); Box::pin(async move { item_future(w, 0, v).await.unwrap_or(0) }) as PlainFutItem }).boxed();
@@ -446,14 +451,14 @@ pub fn beh_strategy() -> BoxedStrategy<Beh> {
 pub struct C11Exec;
 impl C11Exec {
     fn strategy_impl() -> BoxedStrategy<ExecCase> {
-        (any::<u16>(), any::<u16>(), 1u8..=8, any::<bool>(), rt_strategy(), vec(beh_strategy(), 0..40), vec(prop_oneof![3 => Just(false), 1 => Just(true)], 0..24), 0u8..12)
-            .prop_map(|(e, i, limit, timeout_on, rt, items, chop, release_after)| {
+        (any::<u16>(), any::<u16>(), 1u8..=8, any::<bool>(), rt_strategy(), vec(beh_strategy(), 0..40), vec(prop_oneof![3 => Just(false), 1 => Just(true)], 0..24), 0u8..12, prop_oneof![3 => Just(0u8), 1 => Just(20u8), 1 => Just(80u8)])
+            .prop_map(|(e, i, limit, timeout_on, rt, items, chop, release_after, err_cb_delay)| {
                 let exec = crate::driver::pick(&[ExecKind::FutFall, ExecKind::Fut, ExecKind::Fall, ExecKind::NonFut, ExecKind::Plain], e);
                 let instruments = crate::driver::pick(&INSTRUMENTS, i);
                 let mut items = items;
                 // real-clock time-outs cost real time: keep slow items few there
                 if timeout_on && !rt.paused() { let mut slow = 0; for b in items.iter_mut() { if *b == Beh::Slow { slow += 1; if slow > 3 { *b = Beh::Ok; } } } }
-                ExecCase { exec, instruments, limit, timeout_on, rt, items, chop, release_after }
+                ExecCase { exec, instruments, limit, timeout_on, rt, items, chop, release_after, err_cb_delay }
             }).boxed()
     }
 }
@@ -490,7 +495,7 @@ impl Property for C11Exec {
     fn cases(&self, tier: Tier) -> u32 { match tier { Tier::Quick => 16_000, Tier::Thorough => 160_000 } }
     fn run(&self, case: &ExecCase) -> RunReport { exec_report(case, "c11") }
     fn rule(&self) -> String {
-        "generated: StreamExecutor::{spawn_executor | spawn_futures_executor | spawn_fallibles_executor | spawn_non_futures_executor | spawn_non_futures_non_fallibles_executor} x instruments {None, LogsWithoutMetrics, MetricsWithoutLogs, LogsWithMetrics, LogsWithExpensiveMetrics, Custom(COUNTERS), Custom(SATURATION), Custom(EXPENSIVE_PROFILING), Custom(LOG|CHEAP_PROFILING)} x futures timeout {off, on} x concurrency limit 1..8 x runtime {current_thread with the clock paused, multi_thread(2), multi_thread(4)} x 0..39 items over {ok, ok after k yields, ok once a gate opens, error, error after k yields, slow = never completes by itself (timeout on only)} (adapted to what the executor kind can express) x a source stream that answers Pending at generated polls x the instant the gate opens; \
+        "generated: StreamExecutor::{spawn_executor | spawn_futures_executor | spawn_fallibles_executor | spawn_non_futures_executor | spawn_non_futures_non_fallibles_executor} x instruments {None, LogsWithoutMetrics, MetricsWithoutLogs, LogsWithMetrics, LogsWithExpensiveMetrics, Custom(COUNTERS), Custom(SATURATION), Custom(EXPENSIVE_PROFILING), Custom(LOG|CHEAP_PROFILING)} x futures timeout {off, on} x concurrency limit 1..8 x runtime {current_thread with the clock paused, multi_thread(2), multi_thread(4)} x 0..39 items over {ok, ok after k yields, ok once a gate opens, error, error after k yields, slow = never completes by itself (timeout on only)} (adapted to what the executor kind can express) x a source stream that answers Pending at generated polls x the instant the gate opens x spawn_executor's asynchronous error callback taking 0 / 20 / 80 virtual ms (paused clock; the time-out is 50 ms there); \
          oracle: every item enters processing exactly once and completes unless it is slow (also after failures and time-outs); slow items' futures are dropped uncompleted; error callback exactly once per failed item and never otherwise; at most `limit` item futures in progress at any instant (gauge inside the items); in the close callback: exactly one call, after the last item, status StreamEnded, finish >= start, and with metrics on ok / timed-out / failed each equal the intended number (so they add up to the item count), with metrics off all zero; with a real clock, items meant to complete are ready at their first poll so a time-out can never hit them; \
          non-trivial: the sequence mixes at least two outcome kinds".into()
     }
